@@ -293,6 +293,84 @@ def run_import(R):
     return True
 
 
+# ---------------------------------------------------------------------------------------------------- import, 2-D sources of the right scalar type x every row width
+# A vector-array constructor V<w><t>ArrayFromBuffer given a C-contiguous 2-D buffer of shape (r, c) of ITS OWN scalar type t. The
+# elements of such a source are its r rows of c scalars (c*itemsize bytes each); the elements of the target are w scalars.
+# Oracle (a priori, from the statement: "copies exactly the source elements, rejecting buffers whose element type or size does not
+# match"): c == w -> a matching source: r elements, element q == row q exactly. c != w -> the element size does not match: the call
+# must RAISE - also (and in particular) when the total r*c happens to be a multiple of w, where a constructor that derives the
+# element count from the byte length would silently re-interpret the data as r*c/w vectors with components shifted across rows
+# (nothing is read out of bounds there, so no sanitizer sees it, and the flattened scalars are all "there", which is why the
+# lenient flat-equality acceptance of run_import above must not be applied to this class).
+# Space: every V2/V3/V4 constructor of every element type x r in 1..6 x c in {2,3,4} x {array cast to (r,c), memoryview of the
+# imath V<c><t>Array(r)}.
+WIDTH_ROWS = range(1, 7)
+
+
+def width_sources(tc):
+    out = []
+    sfx = {"i": "i", "f": "f", "d": "d"}[tc]
+    for r in WIDTH_ROWS:
+        for c in (2, 3, 4):
+            out.append(("array('%s') cast to shape (%d,%d)" % (tc, r, c), ("cast", tc, r, c), r, c, False))
+            out.append(("memoryview(imath.V%d%sArray(%d))" % (c, sfx, r), ("imathmv", "V%d%sArray" % (c, sfx), r), r, c, True))
+    return out
+
+
+def make_width_source(spec):
+    if spec[0] == "imathmv": return memoryview(_build(spec[1], spec[2]))
+    return make_source(spec)
+
+
+def describe_width_source(spec):
+    mv = memoryview(make_width_source(spec))
+    return {"format": mv.format, "itemsize": mv.itemsize, "ndim": mv.ndim, "shape": tuple(mv.shape), "contig": mv.c_contiguous, "flat": _flat(mv.tolist())}
+
+
+def width_import_case(fname, spec, w):
+    src = make_width_source(spec)
+    r = getattr(imath, fname)(src)
+    n = len(r)
+    return n, [[r[q][c] for c in range(w)] for q in range(n)]
+
+
+def run_widths(R):
+    R.declare("buf.import.row-width.matching", "buf.import.row-width.mismatch.total-divisible-by-width", "buf.import.row-width.mismatch.total-not-divisible",
+              "buf.import.row-width.imath-vector-array-source")
+    ncase = 0
+    for fname in sorted(FROM):
+        f, z, w = FROM[fname]
+        if w == 1: continue
+        for d, spec, r, c, isim in width_sources(f):
+            if R.out_of_time(): return False
+            inp = "imath.%s(%s)" % (fname, d)
+            k0, sd = run_case(describe_width_source, spec)
+            # the source must be what it is meant to be (an imath export that is not is judged by buf.export.*)
+            if k0 != "ok" or sd["format"] not in (f, "@" + f) or sd["itemsize"] != z or sd["ndim"] != 2 or sd["shape"] != (r, c) or not sd["contig"] or len(sd["flat"]) != r * c:
+                if not isim: R.fail("buf.FromBuffer.row-width.harness-exception", inp, "a C-contiguous (%d,%d) buffer of format %r" % (r, c, f), sd)
+                continue
+            R.add("states"); R.add("transitions"); ncase += 1
+            if isim: R.cls("buf.import.row-width.imath-vector-array-source")
+            rows = [sd["flat"][q * c:(q + 1) * c] for q in range(r)]
+            k, v = run_case(width_import_case, fname, spec, w)
+            if c == w:
+                R.cls("buf.import.row-width.matching")
+                if k == "fatal": R.fail("buf.FromBuffer.row-width.matching.fatal", inp, (r, rows), v)
+                elif k == "exc": R.fail("buf.FromBuffer.row-width.matching.rejected", inp, (r, rows), v)
+                elif v[0] != r or v[1] != rows: R.fail("buf.FromBuffer.row-width.matching.wrong-elements", inp, (r, rows), v)
+                continue
+            div = (r * c) % w == 0
+            R.cls("buf.import.row-width.mismatch.total-divisible-by-width" if div else "buf.import.row-width.mismatch.total-not-divisible")
+            exp = "an exception (rows of %d %r items do not describe %s elements of %d)" % (c, f, fname[:-15], w)
+            if k == "exc": continue
+            if k == "fatal": R.fail("buf.FromBuffer.row-width-mismatch.fatal", inp, exp, v)
+            else:
+                R.fail("buf.FromBuffer.row-width-mismatch.accepted" + (".reinterpreted-as-total-over-width" if div and v[0] == r * c // w else ""), inp, exp,
+                       "returned %d elements %r for source rows %r" % (v[0], v[1][:6], rows[:6]))
+    R.note("buffer row-width cases", ncase)
+    return True
+
+
 # ---------------------------------------------------------------------------------------------------- import, sources strided along the FIRST dimension
 # A buffer may be non-contiguous in its first dimension only: memoryview(x)[a:b:s] of a 1-D array, or of a 2-D (rows, W) array whose
 # rows stay dense (strides = (s*W*itemsize, itemsize), negative for s < 0, buf pointing at the first SELECTED row). A constructor that
@@ -458,7 +536,10 @@ def run_rows(R, thorough):
 def run(R, thorough):
     ok = run_export(R)
     ok = ok and run_import(R)
+    ok = ok and run_widths(R)
     R.sample("imath.IntArrayFromBuffer(array('d', 1..3)); memoryview(read-only IntArray(3)); memoryview(V3fArray(3)).nbytes")
     msg = ("export: %d classes x n 0..4 x {writable, read-only, masked reference, component view} + writable-buffer requests; import: %d constructors x %d sources; one forked child per case" %
            (len(run_case(exporters)[1]), len(FROM), len(sources())))
+    msg += ("; row widths: every V2/V3/V4 constructor x C-contiguous (r,c) sources of its own scalar type, r in 1..6, c in {2,3,4} (array casts and memoryviews of the "
+            "imath V<c> arrays): accepted element-exact iff c == width, otherwise an exception")
     (R.stage_done if ok else R.stage_partial)(msg)
